@@ -2,6 +2,7 @@
 import json, os
 import vlib
 from vlib import Report, ToolError, log
+from checks import _c07_closed as closed
 
 PID = "C07"
 ENGINES = ["mmr"]
@@ -29,11 +30,34 @@ def run(tier, replay):
             ok, info = validate_trace(rep, case["trace"], "replay")
             if not ok:
                 rep.violation(obj["signature"], case, str(info))
-        else:
+        elif case.get("kind") == "huge":
+            hp = os.path.join(wd, "huge.ndjson")
+            vlib.harness(["mmr", "huge", "--out", hp, "--p", case["event"]["p"]])
+            for ev in vlib.read_ndjson(hp):
+                for f, want, real in closed.compare(ev):
+                    rep.violation(obj["signature"], case, json.dumps({"p": ev["p"], "field": f, "closed_form": want, "real": real}))
+        elif case.get("kind") == "history":
             p = os.path.join(wd, "replay_cases.ndjson")
             vlib.write_ndjson(p, [case["case"]])
             outp = os.path.join(wd, "replay_out.ndjson")
-            vlib.harness(["mmr", "rewind" if case.get("kind") == "history" else "replay", "--cases", p, "--out", outp])
+            vlib.harness(["mmr", "rewind", "--cases", p, "--out", outp])
+            for r in vlib.read_ndjson(outp):
+                for mm in r["mismatches"]:
+                    rep.violation(obj["signature"], case, json.dumps(mm))
+        else:
+            # the views at earlier leaf counts are compared with the cases of those leaf counts: regenerate the
+            # (deterministic) case list and re-execute only the saved one
+            e = vlib.tlc("mc/MC_MMR", "mc/MC_MMR_emit_thorough" if case["case"]["nl"] > 34 else "mc/MC_MMR_emit",
+                         workers=1, coverage=False, timeout=1500)
+            vlib.tlc_ok(e, "MC_MMR emit")
+            allc = [json.loads(x) for x in e.printed("MMRCASE")]
+            if "nodes" not in case["case"]:
+                allc = []
+            allc = [c for c in allc if c["nl"] != case["case"]["nl"]] + [case["case"]]
+            p = os.path.join(wd, "replay_cases.ndjson")
+            vlib.write_ndjson(p, allc)
+            outp = os.path.join(wd, "replay_out.ndjson")
+            vlib.harness(["mmr", "replay", "--cases", p, "--out", outp, "--only", case["case"]["nl"]])
             for r in vlib.read_ndjson(outp):
                 for mm in r["mismatches"]:
                     rep.violation(obj["signature"], case, json.dumps(mm))
@@ -57,14 +81,26 @@ def run(tier, replay):
     cases = [json.loads(x) for x in e.printed("MMRCASE")]
     if len(cases) < 10:
         raise ToolError("too few MMR cases emitted")
+    # ... and MMRs of 63..260 leaves (6..9 peaks, subtrees of height 6..8): root, peaks and a few proofs each
+    eb = vlib.tlc("mc/MC_MMRBig", "mc/MC_MMR_emit_big", workers=1, coverage=False, timeout=1500, xss="512m")
+    if eb.invariant_violated:
+        print(eb.out[-3000:])
+        raise ToolError("MMR.tla invariant %s violated inside the model (big sizes)" % eb.invariant_violated)
+    vlib.tlc_ok(eb, "MC_MMRBig emit")
+    bigc = [json.loads(x) for x in eb.printed("MMRBIG")]
+    if len(bigc) < 10:
+        raise ToolError("too few big MMR cases emitted")
+    cases += bigc
     cp = os.path.join(wd, "cases.ndjson")
     vlib.write_ndjson(cp, cases)
     outp = os.path.join(wd, "replay_out.ndjson")
     vlib.harness(["mmr", "replay", "--cases", cp, "--out", outp])
     res = vlib.read_ndjson(outp)
     checks = 0
+    terms = 0
     for c, rr in zip(cases, res):
         checks += rr["checks"]
+        terms = max(terms, rr.get("terms", 0))
         for mm in rr["mismatches"]:
             sig = "mmr:replay:%s" % mm["what"] + (":" + mm["class"].split(":")[0] if "class" in mm else "")
             rep.violation(sig, {"kind": "case", "case": c, "mismatch": mm}, json.dumps(mm))
@@ -108,7 +144,25 @@ def run(tier, replay):
         shutil.copy(tp, keep)
         rep.violation("mmr:trace:rejected", {"kind": "trace", "trace": keep, "rejected": why}, why)
 
+    # (B') positions TLC's 32-bit integers cannot reach (2^30 .. 2^64): MMR.tla's closed forms over unbounded
+    # integers (_c07_closed.py, first cross-checked on the Big events that MMRTrace just accepted)
+    if ok:
+        for ev in vlib.read_ndjson(tp):
+            if ev["k"] == "Big" and closed.compare(ev):
+                raise ToolError("_c07_closed.py disagrees with MMRTrace on an accepted Big event: %s" % closed.compare(ev)[:1])
+    hp = os.path.join(wd, "huge.ndjson")
+    vlib.harness(["mmr", "huge", "--out", hp, "--n", 2000 if thorough else 300, "--seed", vlib.seed()])
+    huge = vlib.read_ndjson(hp)
+    huge_fields = 0
+    for ev in huge:
+        huge_fields += len(ev) - 2
+        for f, want, real in closed.compare(ev):
+            rep.violation("mmr:closed_form:%s:%s" % (f, "panic" if real is None else "pos_ge_2^%d" % (ev["p"].bit_length() - 1) if ev["p"] >= 1 << 62 else "pos_ge_2^30"),
+                          {"kind": "huge", "event": ev, "field": f, "closed_form": want},
+                          json.dumps({"p": ev["p"], "field": f, "closed_form": want, "real": real}))
+
     rep.coverage = {
+        "huge_positions": len(huge), "huge_position_fields_compared": huge_fields,
         "states": states, "transitions": trans,
         "traces_validated_against_impl": 1 + len(cases) + len(hists),
         "push_rewind_histories": len(hists), "histories_with_rewind": len(with_rewind), "history_checks": hchecks,
@@ -118,10 +172,19 @@ def run(tier, replay):
         "exhaustive": True,
         "model": {"config": cfg, "leaves": states - 1},
         "replayed_cases": len(cases), "proof_verify_checks": checks,
+        "big_cases": [{"nl": c["nl"], "peaks": len(c["peaks"]), "proofs_of_leaves": [x["d"] for x in c["proofs"]]} for c in bigc],
+        "independently_hashed_terms": terms,
+        "views": {"kinds": ["readonly_at", "rewindable", "pmmr_at", "readonly_pmmr"],
+                  "removal_patterns": [x["name"] for x in cases[5]["rms"]],
+                  "view_sizes_per_case": "every earlier leaf count",
+                  "invariants": ["ViewsOK", "RewindableOK", "ValidateOK", "AnyPosOK"]},
         "trace_events": info["events"], "trace_mmr_size": info["size"],
         "checker_cmd": "tlc mc/MC_MMR; tlc trace/MMRTrace",
     }
-    rep.assumptions = ["blake2b / hash_with_index used as an injective primitive (symbolic terms in the model)",
-                       "positions >= 2^30 not covered (TLC integers are 32-bit)",
+    rep.assumptions = ["blake2b-256 (crate blake2-rfc) used as an injective primitive (symbolic terms in the model); the terms are "
+                       "evaluated by the harness itself as blake2b(be64(index) || bytes), not through grin_core",
+                       "positions >= 2^30: TLC integers are 32-bit, so the closed forms of MMR.tla are evaluated over unbounded "
+                       "integers by lib/checks/_c07_closed.py (operator-by-operator transcription, cross-checked against MMRTrace "
+                       "on the positions < 2^30); results that do not fit in u64 are not compared",
                        "VecBackend element type is the harness's 16-byte Elem"]
     return rep.finish()
